@@ -152,6 +152,10 @@ Terminates == <>Idle
 \* vacuity witness for the configs that are meant to reach the known finding: prints one line per idle state with an entry in excess
 KfWitness == (Idle /\ DOMAIN view \ FinalIds # {}) => PrintT(<<"KFHIT", Cardinality(DOMAIN view \ FinalIds)>>)
 
+\* state constraint of the small witness config (quick tier): streams shaped like the known finding's input (three messages
+\* with timestamp 0, then timestamps 70), all reception-time steps
+KfFamily == \A i \in 1..Len(inputs) : inputs[i].ts = (IF i <= 3 THEN 0 ELSE 70)
+
 \* fingerprint view for the model-checking configs (histories dropped; LcDetector's View already drops its own)
 RView == <<View, sched, stamp, rix, rpub, srvLast, srvSent, srvRecv, srvFin, polledN, view, eacLast, eacNr,
            IF fiSeq = <<>> THEN 0 ELSE fiSeq[Len(fiSeq)] + 1>>
